@@ -1,6 +1,7 @@
 """Load-time canonicalisation of the analysed AST (semantics-preserving, applied to every module before any rule runs):
 
-  (a) `if not C: A else: B`            ->  `if C: B else: A`           (only when the else branch is not an elif chain)
+  (a) `if not C: A else: B`            ->  `if C: B else: A`           (only when the else branch is not an elif chain; likewise
+      `if a != b: A else: B` -> `if a == b: B else: A`, and `is not` / `not in`)
   (b) `x = x <op> e`                   ->  `x <op>= e`                 (x a name / attribute chain, e free of side conditions on x)
   (c) local variable names             ->  the names the rules were written against, aligned by binding order
                                            (vt/ref_locals.json: per function the locals of the reference tree in order of first binding)
@@ -8,6 +9,15 @@
   (e) `range(n)`                       ->  `range(0, n)`
   (f) a *new* local (not in the reference list) that is assigned once and used once, in the very next statement, is substituted
       into that statement (undoes "introduce a temporary")
+
+  (g) `not (a == b)` -> `a != b` (likewise is / in and their negations); `if not not c` -> `if c`
+  (h) `if a: (if b: X)` with no else on either  ->  `if a and b: X`
+  (i) a guard `if T: continue` at the top level of a loop body  ->  `if not T: <rest of the body>`
+  (j) `b > a` -> `a < b` when the reference tree writes that comparison as `a < b` (ref_locals.json, "<"-lists)
+
+  (k) a module-level name that the reference tree does not have, bound exactly once in the module to an int / bytes / str literal
+      (possibly signed or a constant expression of such literals), is substituted by its value where it is read
+      (undoes "give the magic number a name")
 
 (c) is a pure renaming: it is applied only when it is capture-free (the reference name is not otherwise used in the function).
 The rules therefore see the same program whether a developer renamed `index` to `pos`, rewrote `x += 1` as `x = x + 1` or swapped
@@ -44,7 +54,66 @@ def _cmp_key(l: ast.AST, r: ast.AST) -> str:
     return ast.dump(l) + " || " + ast.dump(r)
 
 
+_NEG = {ast.Eq: ast.NotEq, ast.NotEq: ast.Eq, ast.Is: ast.IsNot, ast.IsNot: ast.Is, ast.In: ast.NotIn, ast.NotIn: ast.In}
+_FLIP = {ast.Lt: ast.Gt, ast.Gt: ast.Lt, ast.LtE: ast.GtE, ast.GtE: ast.LtE}
+
+
+def _negate(t: ast.AST) -> ast.AST:
+    """Boolean-context negation of a test, in the simplest exact form."""
+    if isinstance(t, ast.UnaryOp) and isinstance(t.op, ast.Not):
+        return t.operand
+    if isinstance(t, ast.Compare) and len(t.ops) == 1 and type(t.ops[0]) in _NEG:
+        return ast.copy_location(ast.Compare(left=t.left, ops=[_NEG[type(t.ops[0])]()], comparators=t.comparators), t)
+    return ast.copy_location(ast.UnaryOp(op=ast.Not(), operand=t), t)
+
+
+def _strip_double_not(t: ast.AST) -> ast.AST:
+    while isinstance(t, ast.UnaryOp) and isinstance(t.op, ast.Not) and isinstance(t.operand, ast.UnaryOp) and isinstance(t.operand.op, ast.Not):
+        t = t.operand.operand
+    return t
+
+
+def _fold_guards(body: List[ast.stmt]) -> List[ast.stmt]:
+    for i, st in enumerate(body):
+        if isinstance(st, ast.If) and not st.orelse and len(st.body) == 1 and isinstance(st.body[0], ast.Continue) and i < len(body) - 1:
+            rest = _fold_guards(body[i + 1:])
+            new = ast.copy_location(ast.If(test=_negate(st.test), body=rest, orelse=[]), st)
+            return body[:i] + [_merge_nested(new)]
+    return body
+
+
+def _merge_nested(node: ast.If) -> ast.If:
+    while not node.orelse and len(node.body) == 1 and isinstance(node.body[0], ast.If) and not node.body[0].orelse:
+        inner = node.body[0]
+        vals = []
+        for t in (node.test, inner.test):
+            if isinstance(t, ast.BoolOp) and isinstance(t.op, ast.And):
+                vals.extend(t.values)
+            else:
+                vals.append(t)
+        node.test = ast.copy_location(ast.BoolOp(op=ast.And(), values=vals), node.test)
+        node.body = inner.body
+    return node
+
+
 class _Canon(ast.NodeTransformer):
+    def visit_UnaryOp(self, node: ast.UnaryOp):
+        self.generic_visit(node)
+        if isinstance(node.op, ast.Not) and isinstance(node.operand, ast.Compare) and len(node.operand.ops) == 1 and type(node.operand.ops[0]) in _NEG:
+            return _negate(node.operand)
+        return node
+
+    def visit_For(self, node: ast.For):
+        self.generic_visit(node)
+        node.body = _fold_guards(node.body)
+        return node
+
+    def visit_While(self, node: ast.While):
+        self.generic_visit(node)
+        node.test = _strip_double_not(node.test)
+        node.body = _fold_guards(node.body)
+        return node
+
     def visit_Call(self, node: ast.Call):
         self.generic_visit(node)
         if isinstance(node.func, ast.Name) and node.func.id == "range" and len(node.args) == 1 and not node.keywords:
@@ -53,10 +122,17 @@ class _Canon(ast.NodeTransformer):
 
     def visit_If(self, node: ast.If):
         self.generic_visit(node)
+        node.test = _strip_double_not(node.test)
+        node = _merge_nested(node)
         t = node.test
-        if isinstance(t, ast.UnaryOp) and isinstance(t.op, ast.Not) and node.orelse and not (len(node.orelse) == 1 and isinstance(node.orelse[0], ast.If)):
-            node.test = t.operand
-            node.body, node.orelse = node.orelse, node.body
+        if node.orelse and not (len(node.orelse) == 1 and isinstance(node.orelse[0], ast.If)):
+            if isinstance(t, ast.UnaryOp) and isinstance(t.op, ast.Not):
+                node.test = t.operand
+                node.body, node.orelse = node.orelse, node.body
+            elif isinstance(t, ast.Compare) and len(t.ops) == 1 and isinstance(t.ops[0], (ast.NotEq, ast.IsNot, ast.NotIn)):
+                # one canonical polarity for a two-armed if: positive operator first (`not a == b` and `a != b` are the same test)
+                node.test = _negate(t)
+                node.body, node.orelse = node.orelse, node.body
         return node
 
     def visit_Assign(self, node: ast.Assign):
@@ -205,6 +281,19 @@ def _orient_compares(fn: ast.FunctionDef, ref_cmp: List[str]) -> None:
                 n.left, n.comparators[0] = r, l
 
 
+def _lt_key(op: ast.AST, l: ast.AST, r: ast.AST) -> str:
+    return type(op).__name__ + "|" + ast.dump(l) + " || " + ast.dump(r)
+
+
+def _orient_order_compares(fn: ast.FunctionDef, ref_lt: List[str]) -> None:
+    refset = set(ref_lt)
+    for n in ast.walk(fn):
+        if isinstance(n, ast.Compare) and len(n.ops) == 1 and type(n.ops[0]) in _FLIP:
+            l, r, op = n.left, n.comparators[0], n.ops[0]
+            if _lt_key(op, l, r) not in refset and _lt_key(_FLIP[type(op)](), r, l) in refset:
+                n.left, n.comparators[0], n.ops = r, l, [_FLIP[type(op)]()]
+
+
 def normalise_locals(relpath: str, tree: ast.Module) -> int:
     ref = _ref()
     done = 0
@@ -245,6 +334,9 @@ def normalise_locals(relpath: str, tree: ast.Module) -> int:
                 rc = ref.get(key + "::==")
                 if rc:
                     _orient_compares(st, rc)
+                rl = ref.get(key + "::<")
+                if rl:
+                    _orient_order_compares(st, rl)
                 rb = ref.get(key + "::bool")
                 if rb:
                     _orient_boolops(st, rb)
@@ -254,7 +346,67 @@ def normalise_locals(relpath: str, tree: ast.Module) -> int:
     return done
 
 
+def _const_value(e: ast.AST):
+    try:
+        v = ast.literal_eval(e)
+    except Exception:
+        try:
+            v = eval(compile(ast.Expression(e), "<const>", "eval"), {"__builtins__": {}}, {}) if all(
+                isinstance(x, (ast.Constant, ast.BinOp, ast.UnaryOp, ast.operator, ast.unaryop, ast.Expression)) for x in ast.walk(e)) else None
+        except Exception:
+            return None
+    return v if isinstance(v, (int, bytes, str)) and not isinstance(v, bool) else None
+
+
+def _inline_new_module_constants(relpath: str, tree: ast.Module) -> None:
+    known = set(_ref().get(f"{relpath}::module-names", []))
+    if not known and f"{relpath}::module-names" not in _ref():
+        return  # file unknown to the reference: leave as is
+    binds: Dict[str, List[ast.AST]] = {}
+    for st in tree.body:
+        if isinstance(st, ast.Assign) and len(st.targets) == 1 and isinstance(st.targets[0], ast.Name):
+            binds.setdefault(st.targets[0].id, []).append(st.value)
+        elif isinstance(st, ast.AnnAssign) and isinstance(st.target, ast.Name) and st.value is not None:
+            binds.setdefault(st.target.id, []).append(st.value)
+    consts = {}
+    for name, vals in binds.items():
+        if name in known or len(vals) != 1:
+            continue
+        v = _const_value(vals[0])
+        if v is not None:
+            consts[name] = v
+    if not consts:
+        return
+    # never rebound anywhere else in the module (any Store / Del / global / import of that name)
+    for n in ast.walk(tree):
+        if isinstance(n, ast.Name) and isinstance(n.ctx, (ast.Store, ast.Del)) and n.id in consts:
+            par_ok = any(isinstance(st, (ast.Assign, ast.AnnAssign)) and (n in getattr(st, "targets", []) or n is getattr(st, "target", None)) for st in tree.body)
+            if not par_ok:
+                consts.pop(n.id, None)
+        elif isinstance(n, (ast.Global, ast.Nonlocal)):
+            for x in n.names:
+                consts.pop(x, None)
+        elif isinstance(n, ast.arg) and n.arg in consts:
+            consts.pop(n.arg, None)
+        elif isinstance(n, ast.alias) and (n.asname or n.name).split(".")[0] in consts:
+            consts.pop((n.asname or n.name).split(".")[0], None)
+    if not consts:
+        return
+
+    class Sub(ast.NodeTransformer):
+        def visit_Name(self, node):
+            if isinstance(node.ctx, ast.Load) and node.id in consts:
+                return ast.copy_location(ast.Constant(consts[node.id]), node)
+            return node
+    for st in tree.body:
+        if isinstance(st, (ast.FunctionDef, ast.ClassDef, ast.AsyncFunctionDef)):
+            Sub().visit(st)
+    tree.body = [st for st in tree.body if not (isinstance(st, ast.Assign) and len(st.targets) == 1 and isinstance(st.targets[0], ast.Name) and st.targets[0].id in consts)
+                 and not (isinstance(st, ast.AnnAssign) and isinstance(st.target, ast.Name) and st.target.id in consts)]
+
+
 def canonicalise(relpath: str, tree: ast.Module) -> ast.Module:
+    _inline_new_module_constants(relpath, tree)
     tree = _Canon().visit(tree)
     normalise_locals(relpath, tree)
     ast.fix_missing_locations(tree)
@@ -272,7 +424,10 @@ def build_reference(root: str) -> Dict[str, List[str]]:
                 continue
             path = os.path.join(dirpath, fn)
             rel = os.path.relpath(path, root)
-            t = _Canon().visit(ast.parse(open(path).read()))
+            raw = ast.parse(open(path).read())
+            out[f"{rel}::module-names"] = sorted({t.id for st in raw.body if isinstance(st, (ast.Assign, ast.AnnAssign))
+                                                  for t in (st.targets if isinstance(st, ast.Assign) else [st.target]) if isinstance(t, ast.Name)})
+            t = _Canon().visit(raw)
 
             def visit(body, prefix):
                 for st in body:
@@ -285,6 +440,10 @@ def build_reference(root: str) -> Dict[str, List[str]]:
                                        if isinstance(n, ast.Compare) and len(n.ops) == 1 and isinstance(n.ops[0], (ast.Eq, ast.NotEq))})
                         if cmps:
                             out[f"{rel}::{prefix}{st.name}::=="] = cmps
+                        lts = sorted({_lt_key(n.ops[0], n.left, n.comparators[0]) for n in ast.walk(st)
+                                      if isinstance(n, ast.Compare) and len(n.ops) == 1 and type(n.ops[0]) in _FLIP})
+                        if lts:
+                            out[f"{rel}::{prefix}{st.name}::<"] = lts
                         bools = {}
                         for n in ast.walk(st):
                             if isinstance(n, ast.BoolOp) and len(n.values) >= 2:
@@ -304,3 +463,10 @@ if __name__ == "__main__":
     with open(REF_PATH, "w") as fh:
         json.dump(ref, fh, indent=0, sort_keys=True)
     print(len(ref), "functions with locals")
+    # the guard inventory is taken from the same reference tree (after canonicalisation with the table just written)
+    _REF = None
+    from .rules import guards
+    g = guards.build_reference(sys.argv[1] if len(sys.argv) > 1 else "/repo")
+    with open(guards.REF_PATH, "w") as fh:
+        json.dump(g, fh, indent=0, sort_keys=True)
+    print(sum(len(v) for k, v in g.items() if not k.startswith("::")), "effect statements in the guard inventory;", len(g["::writes"]), "functions in the write inventory")
